@@ -959,8 +959,29 @@ def draw_program(draw, cfg=None):
         c = b.grow(p, g.pick([0, 1, 1, 2]), weights={"extend": 5, "select_rows": 3, "window": 2, "project": 1}, wander=0)
         if cfg.get("narrowing_tails") and g.boolean(0.6):
             # both consumers ask the shared node for different column subsets
-            na = b.step(a, g.pick(["select_columns", "drop_columns"]))
-            nc = b.step(c, g.pick(["select_columns", "drop_columns"]))
+            if g.boolean(0.6):
+                # complementary requests: each branch computes something from P and keeps only P's key + what it
+                # computed (+ at most one more column of P) -> the two requests to P differ in both directions
+                pcols = set(b.schemas[p].names())
+                keyc = set(min(b.schemas[p].keys, key=len)) if b.schemas[p].keys else set()
+
+                def complementary(cur):
+                    if cur == p:
+                        nxt = b.grow(cur, 1, weights={"extend": 5, "window": 2}, wander=0)
+                        cur = nxt if nxt is not None else cur
+                    names = b.schemas[cur].names()
+                    keep = [x for x in names if x in keyc or x not in pcols]
+                    extra = [x for x in names if x not in keep]
+                    if extra and g.boolean(0.5):
+                        keep.append(g.pick(extra))
+                    if not keep or len(keep) == len(names):
+                        return b.step(cur, "select_columns")
+                    return b.add({"op": "select_columns", "src": cur, "cols": [x for x in names if x in keep]})
+
+                na, nc = complementary(a), complementary(c)
+            else:
+                na = b.step(a, g.pick(["select_columns", "drop_columns"]))
+                nc = b.step(c, g.pick(["select_columns", "drop_columns"]))
             a = na if na is not None else a
             c = nc if nc is not None else c
         elif g.boolean(0.4):
